@@ -918,6 +918,15 @@ func classifyAppend(p *Prog, f *ssa.Function, c *ssa.Call) (string, string) {
 				case "slices.Clone", "slices.Clip", "slices.Concat":
 					return true
 				}
+				if o := callee.Origin(); o != nil && o.Pkg != nil && o.Pkg.Pkg.Path() == "slices" {
+					switch o.Name() {
+					case "Clone", "Concat":
+						return true
+					case "Grow":
+						// room reserved in a slice that is itself fresh (typically nil) and held by nothing else
+						return len(t.Call.Args) == 2 && fresh(t.Call.Args[0], seen) && len(otherHolders(t.Call.Args[0], t)) == 0
+					}
+				}
 			}
 			return false
 		case *ssa.Phi:
